@@ -209,7 +209,21 @@ def r17_3(ctx):
         ctx.check(isinstance(par, ast.If) and full173(par.test) == "self.line_range", f.fq, "if self.line_range", f"{m.relpath}:{slices[0].lineno}", "slicing only when a range was requested", "line slicing is not guarded by `if self.line_range`")
     # highlight marker compares the displayed number
     ctx.shape("highlight_line(line_no)" in norm(f.node) and "highlight_line = self.highlight_lines.__contains__" in norm(f.node), f.fq, "highlight_line(line_no)", f.where, "the failing-line marker is chosen by the displayed line number", "the highlight marker is not selected by the displayed line number")
-    ctx.shape("str(line_no).rjust(numbers_column_width - 2)" in norm(f.node), f.fq, "str(line_no)", f.where, "the gutter shows line_no", "the gutter does not show the enumerated line number")
+    # the gutter text is built from the displayed number: str(<number variable>) occurs in the loop (the number variable is the
+    # enumerate target, or the `first + index` local of form B)
+    numvar = None
+    if enums:
+        lp173 = enums[0]
+        if len(lp173.iter.args) == 2 and isinstance(lp173.target, ast.Tuple) and isinstance(lp173.target.elts[0], ast.Name):
+            numvar = lp173.target.elts[0].id
+        elif first_override is not None:
+            idx173 = lp173.target.elts[0].id
+            for b_ in lp173.body:
+                if isinstance(b_, ast.Assign) and len(b_.targets) == 1 and isinstance(b_.targets[0], ast.Name) and any(isinstance(y, ast.Name) and y.id == idx173 for y in ast.walk(b_.value)):
+                    numvar = b_.targets[0].id
+                    break
+    shown = numvar is not None and any(isinstance(c, ast.Call) and norm(c.func) == "str" and len(c.args) == 1 and norm(c.args[0]) == numvar for c in ast.walk(enums[0]))
+    ctx.shape(shown, f.fq, f"str({numvar})", f.where, "the gutter shows the displayed line number", "the gutter text is not built from str(<line number>)")
     w = ctx.repo.cls("syntax:Syntax").method("_numbers_column_width")
     from ..yieldpaths import Unsupported, paths_of, resolve
     try:
